@@ -140,6 +140,11 @@ func TestSim(t *testing.T) {
 			res.Inconclusive++
 			continue
 		}
+		if rep := raceDelta(); rep != "" {
+			// the race detector reported during this run: attribute it to this seed
+			res.RaceReports++
+			o.Vio(id+".data-race", raceFacts(rep), "race detector report during this run (seed %d):\n%s", seed, clip(rep, 3000))
+		}
 		res.Checks += int64(o.Checks)
 		if o.Res != nil {
 			res.Steps += int64(o.Res.Steps)
@@ -233,6 +238,9 @@ func runReplay(t *testing.T, p *Prop, path string, res *ProcResult) {
 		return
 	}
 	o := p.Run(t, sc, true)
+	if rep := raceDelta(); rep != "" && o != nil {
+		o.Vio(p.ID+".data-race", raceFacts(rep), "race detector report during this run:\n%s", clip(rep, 3000))
+	}
 	res.Runs = 1
 	if o == nil || o.Res == nil {
 		res.Error = "replay produced no result"
@@ -325,4 +333,58 @@ func outcomeDigest(o *Outcome) string {
 	}
 	sortStrings(sigs)
 	return fmt.Sprintf("%d/%d/%s", o.Res.Digest, o.Res.Steps, strings.Join(sigs, ","))
+}
+
+var raceOff int64
+
+// raceDelta returns what the race detector wrote to its log (GORACE log_path) since the last call.
+func raceDelta() string {
+	base := os.Getenv("VERIF_RACELOG")
+	if base == "" {
+		return ""
+	}
+	b, err := os.ReadFile(fmt.Sprintf("%s.%d", base, os.Getpid()))
+	if err != nil || int64(len(b)) <= raceOff {
+		return ""
+	}
+	out := string(b[raceOff:])
+	raceOff = int64(len(b))
+	if !strings.Contains(out, "DATA RACE") {
+		return ""
+	}
+	return out
+}
+
+// raceFacts names the two conflicting accesses by the first function of the
+// code under test (or harness) in each stack: stable across line-number changes.
+func raceFacts(rep string) string {
+	var fns []string
+	lines := strings.Split(rep, "\n")
+	inStack := false
+	for _, l := range lines {
+		t := strings.TrimSpace(l)
+		switch {
+		case strings.HasPrefix(t, "Write at"), strings.HasPrefix(t, "Read at"), strings.HasPrefix(t, "Previous write at"), strings.HasPrefix(t, "Previous read at"):
+			inStack = true
+		case t == "" || strings.HasPrefix(t, "Goroutine"):
+			inStack = false
+		case inStack && strings.Contains(t, "absnfs.") && strings.HasSuffix(t, ")"):
+			fn := t[strings.Index(t, "absnfs.")+7:]
+			if i := strings.Index(fn, "("); i > 0 && !strings.HasPrefix(fn, "(") {
+				fn = fn[:i]
+			} else if j := strings.LastIndex(fn, "("); j > 0 {
+				fn = fn[:j]
+			}
+			fns = append(fns, fn)
+			inStack = false
+		}
+		if len(fns) == 2 {
+			break
+		}
+	}
+	sortStrings(fns)
+	if len(fns) == 0 {
+		return "unattributed"
+	}
+	return "between=" + sanitize(strings.Join(fns, "|"))
 }
